@@ -99,6 +99,8 @@ Definition set_data_comp (t : tcomp) (spans : bool) (nrows : nat) : res dcomp :=
       | PBox num d enc lv =>
           let enc' := match enc with Some e => e | None => Treatment None end in
           let cats := match lv with Some l => l | None => sort_levels num (present d) end in
+          (* pd.Categorical(data, categories=levels) raises ValueError when levels= repeats an entry *)
+          if negb (List.length (nodup_by String.eqb cats) =? List.length cats)%nat then Err EValue else
           do cm <- code enc' spans cats;
           Ok (DC t cats (Some cm) (code_rows (cmatrix cm) (contrast_width cm) (level_codes cats d))
                  (Some (map (fun l => tc_name t ++ "[" ++ l ++ "]") (clabels cm))) spans)
